@@ -565,8 +565,8 @@ fn body(ctx: &mut Ctx) {
                 if !take {
                     continue;
                 }
-                for sa in 0..3u64 {
-                    for sb in 0..10u64 {
+                for sa in 0..tier.pick(3u64, 6u64) {
+                    for sb in 0..tier.pick(10u64, 28u64) {
                         let a = mk(&alpha::lcg_digits(la, 100 + sa));
                         let b = mk(&alpha::lcg_digits(lb, sb));
                         div_pair(ctx, &a, &b, la <= 8);
